@@ -17,7 +17,7 @@ func TestSmoke(t *testing.T) {
 	}
 	logger.SetDefault(zap.NewNop())
 	logger.SetNamedLevels(logger.LevelsFromStr("*=fatal"))
-	scratch, _ := os.MkdirTemp("/dev/shm", "c15smoke-")
+	scratch, _ := os.MkdirTemp(scratchDir(), "c15smoke-")
 	defer os.RemoveAll(scratch)
 	t0 := time.Now()
 	f, err := newFixture(1, scratch)
@@ -38,4 +38,67 @@ func TestSmoke(t *testing.T) {
 		d.close()
 	}
 	fmt.Println("boot+close", time.Since(t0)/time.Duration(N))
+}
+
+func TestSizes(t *testing.T) {
+	if os.Getenv("C15_SMOKE") == "" {
+		t.Skip()
+	}
+	logger.SetDefault(zap.NewNop())
+	scratch, _ := os.MkdirTemp(scratchDir(), "c15smoke-")
+	defer os.RemoveAll(scratch)
+	f, err := newFixture(1, scratch)
+	if err != nil {
+		t.Fatal(err)
+	}
+	for n, b := range f.tmpl {
+		fmt.Println(n, len(b))
+	}
+}
+
+func TestPhases(t *testing.T) {
+	if os.Getenv("C15_SMOKE") == "" {
+		t.Skip()
+	}
+	logger.SetDefault(zap.NewNop())
+	logger.SetNamedLevels(logger.LevelsFromStr("*=fatal"))
+	scratch, _ := os.MkdirTemp(scratchDir(), "c15smoke-")
+	defer os.RemoveAll(scratch)
+	f, err := newFixture(1, scratch)
+	if err != nil {
+		t.Fatal(err)
+	}
+	h := []event{{Op: "create", A: "X"}, {Op: "create", A: "Z"}, {Op: "deliver", A: "a1"}}
+	var tReplay, tObs, tProbe, tClosure, tClose time.Duration
+	N := 40
+	for i := 0; i < N; i++ {
+		t0 := time.Now()
+		d, err := replayHistory(f, scratch, h)
+		if err != nil {
+			t.Fatal(err)
+		}
+		t1 := time.Now()
+		o := observe(d)
+		t2 := time.Now()
+		probes(d, f, o, map[string]bool{})
+		t3 := time.Now()
+		closure(d, f, o, map[string]bool{})
+		t4 := time.Now()
+		d.close()
+		t5 := time.Now()
+		tReplay += t1.Sub(t0)
+		tObs += t2.Sub(t1)
+		tProbe += t3.Sub(t2)
+		tClosure += t4.Sub(t3)
+		tClose += t5.Sub(t4)
+	}
+	n := time.Duration(N)
+	fmt.Println("replay", tReplay/n, "observe", tObs/n, "probes", tProbe/n, "closure", tClosure/n, "close", tClose/n)
+}
+
+func scratchDir() string {
+	if s := os.Getenv("C15_SCRATCH"); s != "" {
+		return s
+	}
+	return "/dev/shm"
 }
